@@ -18,6 +18,9 @@ Kernels (source function -> generated definitions):
   io/parser.py            NpBufferedWriter.write           gen_write_emits_header, gen_stream_skips_empty
   io/files.py             _get_buffered_file,              gen_append_flag_a, gen_append_flag_w
   io/parser.py            NpBufferedWriter.__init__
+  io/buffers/sam.py       SAMBuffer.from_data,             gen_sam_from_data_joins_fields,
+                          SAMBuffer.join_fields            gen_sam_tags_start, gen_sam_tags_step, gen_sam_no_tags, gen_sam_cell_end,
+                                                           gen_sam_drop_index
 
 Reading conventions (trusted, stated in notes/C03.md): an element-wise NumPy expression over equally shaped arrays is
 read per element; `x[:, np.newaxis]`, `x[:, None]` do not change the element; `a[mask]` / `a[1:]` / `a[:-1]` are read
@@ -505,7 +508,69 @@ def gen():
             'true' if out['a'] else 'false', 'true' if out['w'] else 'false'))
     _emit(defs, 'gen_append_flag_a', append_flags)
 
-    return ('bionumpy/io/{multiline_buffer,dump_csv,delimited_buffers,one_line_buffer,fastq_buffer,vcf_buffers,parser,files}.py', defs)
+    # ================= buffers/sam.SAMBuffer.from_data / join_fields =================
+    t_sam = _parse('bionumpy/io/buffers/sam.py')
+    fsj = lambda: find_function(t_sam, 'SAMBuffer.join_fields')
+
+    def sam_from_data():
+        f = find_function(t_sam, 'SAMBuffer.from_data')
+        rets = [n for n in f.body if isinstance(n, ast.Return)]
+        r = _one(rets, 'top-level return in SAMBuffer.from_data').value
+        want = 'cls.join_fields([get_column(getattr(data, field.name), field.type) for field in dataclasses.fields(data)])'
+        if src_of(r) != want:
+            raise Unsupported('SAMBuffer.from_data does not return %s' % want)
+        return 'Definition gen_sam_from_data_joins_fields : bool := true.\n'
+    _emit(defs, 'gen_sam_from_data_joins_fields', sam_from_data)
+
+    def sam_lines():
+        a = _assign_to(fsj(), 'lines')
+        if src_of(a.value) != 'join_columns(fields_list, cls.DELIMITER)':
+            raise Unsupported('join_fields does not start from join_columns(fields_list, cls.DELIMITER)')
+        fl = _assign_to(fsj(), 'flat')
+        if src_of(fl.value) != 'lines.ravel()':
+            raise Unsupported('flat is not lines.ravel()')
+        rets = [src_of(n.value) for n in _stmts(fsj(), ast.Return)]
+        if sorted(rets) != ['flat', 'flat[keep]']:
+            raise Unsupported('join_fields does not return flat / flat[keep]: %s' % rets)
+        k = _assign_to(fsj(), 'keep')
+        if src_of(k.value) != 'np.ones(flat.size, dtype=bool)':
+            raise Unsupported('keep is not an all-True mask')
+        return True
+
+    def sam_no_tags():
+        sam_lines()
+        a = _assign_to(fsj(), 'no_tags')
+        c = a.value
+        if not (isinstance(c, ast.Call) and src_of(c.func) == 'np.flatnonzero' and len(c.args) == 1
+                and isinstance(c.args[0], ast.Compare) and isinstance(c.args[0].left, ast.Subscript)
+                and src_of(c.args[0].left.value) == 'lines.lengths' and isinstance(c.args[0].left.slice, ast.Slice)
+                and c.args[0].left.slice.upper is None):
+            raise Unsupported('no_tags is not np.flatnonzero(lines.lengths[a::b] <cmp> k): %s' % src_of(c))
+        return c.args[0]
+    NF = {'len(fields_list)': 'n_fields'}
+    _emit(defs, 'gen_sam_tags_start', lambda: K03(fsj(), NF).define('gen_sam_tags_start', ['n_fields'], sam_no_tags().left.slice.lower))
+    _emit(defs, 'gen_sam_tags_step', lambda: K03(fsj(), NF).define('gen_sam_tags_step', ['n_fields'], sam_no_tags().left.slice.step))
+
+    def sam_no_tags_test():
+        c = sam_no_tags()
+        k = K03(fsj(), NF, {id(c.left): 'cell_len'})
+        return k.define_bool('gen_sam_no_tags', ['cell_len'], [], c)
+    _emit(defs, 'gen_sam_no_tags', sam_no_tags_test)
+    _emit(defs, 'gen_sam_cell_end', lambda: K03(fsj(), {'np.cumsum(lines.lengths)': 'cum'}).define(
+        'gen_sam_cell_end', ['cum'], _assign_to(fsj(), 'cell_ends').value))
+
+    def sam_drop():
+        a = _one([n for n in _stmts(fsj(), ast.Assign) if len(n.targets) == 1 and isinstance(n.targets[0], ast.Subscript)
+                  and src_of(n.targets[0].value) == 'keep'], 'keep[...] = ...')
+        if not (isinstance(a.value, ast.Constant) and a.value.value is False):
+            raise Unsupported('the mask is not cleared (keep[...] = False)')
+        t = a.targets[0].slice
+        if not (isinstance(t, ast.Subscript) and src_of(t.value) == 'cell_ends'):
+            raise Unsupported('masked positions are not cell_ends[...]: %s' % src_of(t))
+        return K03(fsj(), dict(NF, no_tags='r')).define('gen_sam_drop_index', ['r', 'n_fields'], t.slice)
+    _emit(defs, 'gen_sam_drop_index', sam_drop)
+
+    return ('bionumpy/io/{buffers/sam,multiline_buffer,dump_csv,delimited_buffers,one_line_buffer,fastq_buffer,vcf_buffers,parser,files}.py', defs)
 
 
 def _raise(e):
